@@ -15,6 +15,9 @@ CHECKS = {
  "C03": ("Hypothesis-generated SimplicialComplex histories against closure / no-duplicate / exact-coface-removal / max_order / has_simplex invariants after every op",
          "Exploration: generated histories over the complex's own mutators with simplices up to 6 nodes; the closure check enumerates every subset of every simplex after every step, removal is compared with the exact coface set, has_simplex with brute-force membership.",
          "Closure judged for subsets of size >= 2; inherited non-simplicial Hypergraph mutators are outside the statement.", "DESIGN.md#C03"),
+ "C04": ("Hypothesis-generated (provenance builder x base network x addition history) cases; before/after snapshot oracle plus model-predicted number of new IDs",
+         "Exploration over a registry of ~100 ways to obtain a network (every constructor input type, from_*/read_* function, generator, copy/pickle, relabelling, derived networks) crossed with generated addition histories; around every addition all old IDs must keep members and attributes and the count of new IDs must equal what the reference model adds. The registry is audited against introspection and gaps are listed in the evidence.",
+         "New public builders are seen by the audit but only exercised once registered; expected counts come from the C05 models.", "DESIGN.md#C04"),
  "C05": ("Model-based testing: Hypothesis-generated histories applied step by step to xgi and to reference models transcribed from the docstrings (three classes), metamorphic relations for the degree-preserving moves",
          "Exploration by refinement checking against an executable specification: every op of a generated history is applied to the implementation and to the model (parametric in fresh IDs, prefix semantics for bulk calls) and the observable snapshots are compared after every step, including after rejected calls and their exception types.",
          "The models are my transcription of the documentation; inputs the documentation leaves contradictory are excluded by construction and counted (see assumptions in the evidence).", "DESIGN.md#C05"),
